@@ -1248,12 +1248,26 @@ func runSignal(c *Ctx, r *Reporter) {
 			if !ok {
 				continue
 			}
-			call, ok := ifi.Cond.(*ssa.Call)
-			if !ok || call.Call.StaticCallee() != isBreakSSA {
+			// isBreak(v), or the same test written as a type assertion / type switch case on *breakVal
+			var testedVal ssa.Value
+			if call, ok := ifi.Cond.(*ssa.Call); ok && call.Call.StaticCallee() == isBreakSSA {
+				testedVal = call.Call.Args[0]
+			} else if ex, ok := ifi.Cond.(*ssa.Extract); ok && ex.Index == 1 {
+				if ta, ok := ex.Tuple.(*ssa.TypeAssert); ok && ta.CommaOk {
+					t := ta.AssertedType
+					if pt, ok := t.(*types.Pointer); ok {
+						t = pt.Elem()
+					}
+					if n := namedOf(t); n != nil && n.Obj().Name() == "breakVal" {
+						testedVal = ta.X
+					}
+				}
+			}
+			if testedVal == nil {
 				continue
 			}
 			tested = true
-			okb, why := edgeReturnsPlain(ifi, call.Call.Args[0])
+			okb, why := edgeReturnsPlain(ifi, testedVal)
 			if okb {
 				plain = true
 			} else if strings.Contains(why, "signal itself") {
